@@ -42,6 +42,7 @@ impl std::fmt::Display for CheckedTransactionExecutionError { fn fmt(&self, _f: 
 impl From<CheckedTransactionExecutionError> for eyre::Report { fn from(_e: CheckedTransactionExecutionError) -> Self { eyre::Report::new() } }
 #[derive(Clone, Copy, Debug, PartialEq, Eq, Default)] pub struct Event(pub u8);   // not zero-sized: CBMC aborts on arrays of zero-sized elements
 #[derive(Clone, Copy, Debug, PartialEq, Eq, Default)] pub enum Code { #[default] Ok, Err(u32) }
+impl Code { pub fn is_ok(&self) -> bool { matches!(self, Code::Ok) } pub fn is_err(&self) -> bool { !self.is_ok() } pub fn value(&self) -> u32 { match self { Code::Ok => 0, Code::Err(c) => *c } } }
 pub struct AbciErrorCode(pub u32);
 impl AbciErrorCode { pub const TRANSACTION_FAILED_EXECUTION: AbciErrorCode = AbciErrorCode(10); pub fn value(&self) -> u32 { self.0 } }
 #[derive(Clone, Debug, PartialEq, Eq, Default)] pub struct ExecTxResult { pub code: Code, pub log: String, pub info: String, pub events: Vec<Event> }
